@@ -504,10 +504,11 @@ impl FileStateMachine {
         let mut pos = 0;
         let mut operations = Vec::new();
         let mut replayed_count = 0;
+        let mut last_replayed: Option<(u64, u64)> = None;
 
         while pos + 17 < buffer.len() {
             // Read entry index (8 bytes)
-            let _index = u64::from_be_bytes(buffer[pos..pos + 8].try_into().unwrap());
+            let index = u64::from_be_bytes(buffer[pos..pos + 8].try_into().unwrap());
             pos += 8;
 
             // Read entry term (8 bytes)
@@ -601,6 +602,10 @@ impl FileStateMachine {
 
             operations.push((op_code, key, value, term, expire_at_secs));
             replayed_count += 1;
+            // Every complete WAL record is an applied entry: remember how far the WAL reaches.
+            if last_replayed.map(|(i, _)| index > i).unwrap_or(true) {
+                last_replayed = Some((index, term));
+            }
         }
 
         info!(
@@ -698,6 +703,15 @@ impl FileStateMachine {
             "WAL replay complete: {} operations replayed, {} applied, {} expired keys skipped",
             replayed_count, applied_count, skipped_expired
         );
+
+        // The data now includes every replayed entry, so the applied index must say so too:
+        // otherwise Raft re-applies those entries after the restart (CAS is not idempotent).
+        if let Some((index, term)) = last_replayed
+            && index > self.last_applied_index.load(Ordering::SeqCst)
+        {
+            self.last_applied_index.store(index, Ordering::SeqCst);
+            self.last_applied_term.store(term, Ordering::SeqCst);
+        }
 
         // Unconditionally clear WAL after replay. load_data() already restored the last
         // checkpoint; WAL is only the post-checkpoint delta. Even if 0 entries were applied
